@@ -131,10 +131,12 @@ Invalidate ==
          f == Fold(victims, ep, retain, pool)
      IN ep' = f[1] /\ retain' = f[2] /\ pool' = f[3]
   /\ UNCHANGED <<now, nep, dials>> /\ Log("invalidate", "", NoEp, "", "ok")
-\* time passes; the janitor removes and closes what expired (also expired failure entries and invalidated idle endpoints)
+\* time passes; the janitor (every 250 ms, never at the very instant of an event) removes and closes what HAD expired before
+\* the new instant, also invalidated idle endpoints.  An entry that expires exactly at the new instant is still in the pool:
+\* an expired failure entry no longer blocks its key and must not be handed out, an expired live endpoint is still alive.
 Tick(d) ==
   /\ now' = now + d
-  /\ LET gone == {k \in Keys : pool[k] # NoEp /\ (now + d >= ep[pool[k]].expires \/ (ep[pool[k]].st = "live" /\ ep[pool[k]].gen # epoch /\ ~ep[pool[k]].used))}
+  /\ LET gone == {k \in Keys : pool[k] # NoEp /\ (now + d > ep[pool[k]].expires \/ (ep[pool[k]].st = "live" /\ ep[pool[k]].gen # epoch /\ ~ep[pool[k]].used))}
          RECURSIVE Fold(_, _, _)
          Fold(S, e, r) == IF S = {} THEN <<e, r>>
                           ELSE LET k == CHOOSE x \in S : TRUE  c == CloseEp(e, r, pool[k]) IN Fold(S \ {k}, c[1], c[2])
@@ -159,7 +161,7 @@ Next == /\ Len(hist) < MaxEvents
            \/ \E i \in 1..MaxEp, t \in Tuples : Track(i, t)
            \/ \E i \in 1..MaxEp, o \in Owners : AdoptClose(i, o)
            \/ Invalidate \/ Reset
-           \/ \E d \in {1, NatT + 10} : Tick(d)
+           \/ \E d \in {1, FailT, NatT, NatT + 10} : Tick(d)        \* FailT / NatT: to the very instant an entry expires
 Spec == Init /\ [][Next]_vars
 
 (* ---------------------------------------------------------------- property layer *)
